@@ -532,6 +532,18 @@ func (i *interpreter) cmpCells(a, b []value) (lt, eq *smt.Term) {
 	} else {
 		lt, eq = C.False(), C.False()
 	}
+	a, b = i.digestBytes(a), i.digestBytes(b)
+	// a concrete byte that differs before anything symbolic or opaque decides the comparison
+	for j := 0; j < n; j++ {
+		x, okx := a[j].(uint8)
+		y, oky := b[j].(uint8)
+		if !okx || !oky {
+			break
+		}
+		if x != y {
+			return C.BoolConst(x < y), C.False()
+		}
+	}
 	for j := n - 1; j >= 0; j-- {
 		ba, aBox := a[j].(boxCell)
 		bb, bBox := b[j].(boxCell)
@@ -540,6 +552,14 @@ func (i *interpreter) cmpCells(a, b []value) (lt, eq *smt.Term) {
 			var e *smt.Term
 			if aBox && bBox {
 				e = i.boxEq(ba, bb)
+				if e.IsFalse() {
+					// two different closed digests: ordered by their fingerprints
+					if less, ok := i.digestOrder(ba, bb); ok {
+						lt = C.BoolConst(less)
+						eq = C.False()
+						continue
+					}
+				}
 			} else {
 				e = C.False()
 			}
@@ -563,12 +583,38 @@ func (i *interpreter) boxEq(a, b boxCell) *smt.Term {
 	if a.kind != b.kind || !sameType(a.t, b.t) {
 		return i.m.C.False()
 	}
+	if fa, ok := i.closedBoxFP(a); ok {
+		if fb, ok := i.closedBoxFP(b); ok {
+			return i.m.C.BoolConst(fa == fb)
+		}
+	}
 	if a.kind == "hash:sha256" {
 		ta, tb := a.v.(tuple), b.v.(tuple)
 		if ta[1].(int) != tb[1].(int) {
 			return i.m.C.False()
 		}
-		_, eq := i.cmpCells(ta[0].([]value), tb[0].([]value))
+		sa, sb := ta[0].([]value), tb[0].([]value)
+		if len(sa) != len(sb) {
+			return i.m.C.False()
+		}
+		if len(sa) == 0 {
+			return i.m.C.True()
+		}
+		// the 32 cells of one digest share their source: compare each pair of sources once (nested digests - merkle
+		// trees - would otherwise cost 32^depth)
+		key := [2]*value{&sa[0], &sb[0]}
+		if key[0] == key[1] {
+			return i.m.C.True()
+		}
+		if t, ok := i.hashEqMemo[key]; ok {
+			return t
+		}
+		_, eq := i.cmpCells(sa, sb)
+		if i.hashEqMemo == nil {
+			i.hashEqMemo = map[[2]*value]*smt.Term{}
+		}
+		i.hashEqMemo[key] = eq
+		i.hashEqMemo[[2]*value{key[1], key[0]}] = eq
 		return eq
 	}
 	return i.deepEq(a.v, b.v)
